@@ -206,6 +206,24 @@ def r4_r5_client_adopts(ctx):
     ctx.ob("R19.4", "UpdatePaddingScheme-arm:session-switches-to-default", okc, "src/session/session.rs:%s" % (hit[0][1] if hit else "?"),
            "on the Ok edge `*self.padding.write() = PaddingFactory::default()`" if okc else "after a successful update the session's own scheme cell is not assigned from the new default")
     sw, arms = C02.arm_regions(ctx, body)
+    # every push handled by a client session ends with that session on the new scheme: the only way through the arm (client
+    # role) that does not pass the assignment is the parse-failure edge
+    if arms and "UpdatePaddingScheme" in arms and hit:
+        s0, own0, allr0 = arms["UpdatePaddingScheme"]
+        client_e = []
+        for c in conds.all():
+            if c.block in own0 | {s0} and c.kind == "bool" and var_name(c.term) == "self.is_client":
+                client_e += c.succs_for(True)
+        exits = [b_ for b_ in allr0 if b_ not in own0 and any(p_ in own0 for p_ in cfg.preds(b_))] or body.return_blocks()
+        empty_e = []
+        for c in conds.all():
+            if c.block in own0 and c.kind == "bool" and is_call_term(c.term, "Bytes::is_empty") and "frame.data" in fmt(c.term):
+                empty_e += c.succs_for(True)        # a push without payload carries no scheme
+        if client_e:
+            okall, pth = cfg.must_pass(client_e, exits, via_blocks=[s[0] for s in hit] + [e[1] for e in err_e] + empty_e)
+            ctx.ob("R19.4", "UpdatePaddingScheme-arm:every-parsable-push-switches-this-session", okall, "", "from the client-role edge every path through the arm passes the assignment (or the parse-failure edge)" if okall else
+                   "a path through the arm leaves this session's scheme unchanged although the push parsed (an early return, e.g. a 'this scheme is already the process default' shortcut): of two sessions opened before "
+                   "the first push, the second one to receive it keeps shaping with the old scheme for the rest of its life", path=None if okall else render_path(body, pth))
     region = cfg.reach([e[1] for e in err_e])
     if arms and "UpdatePaddingScheme" in arms:
         region &= arms["UpdatePaddingScheme"][1]
@@ -213,6 +231,42 @@ def r4_r5_client_adopts(ctx):
     eff = [c for c in effectful_calls(body, region) if not (c.norm or "").endswith(("md5::compute", "LowerHex>::fmt", "Argument::new_lower_hex"))]
     ctx.ob("R19.5", "UpdatePaddingScheme-arm:bad-push-is-inert", not err_rets and not eff, "", "the Err edge only logs" if not err_rets and not eff else
            "a scheme that does not parse %s" % ("returns an error (which closes the session)" if err_rets else "triggers %s" % eff[0].norm))
+
+
+def r8_announced_md5_is_the_sessions_own(ctx):
+    """what a client session announces as padding-md5 is the md5 of the scheme that session shapes with (self.padding), and the
+    scheme a write is shaped with is read inside the critical section that numbers the packet"""
+    sb = co(ctx, "R19.8", S + "start_client")
+    if sb is not None:
+        o = ctx.origins(sb)
+        ins = [c for c in calls_norm(sb, "StringMap::insert") if len(c.args) > 2 and "padding-md5" in fmt(o.of_operand(c.args[1]))]
+        if not ins:
+            ctx.missing("R19.8", "insertion of padding-md5 into the client's Settings")
+        else:
+            v = o.of_operand(ins[0].args[2])
+            own = any(isinstance(s_, tuple) and s_ and s_[0] == "var" and str(s_[1]).startswith("self.padding") for s_ in subterms(v)) and any(is_call_term(s_, "PaddingFactory::md5") for s_ in subterms(v))
+            glob = any(is_call_term(s_, "PaddingFactory::default", "PaddingFactory::pushed") for s_ in subterms(v))
+            ctx.ob("R19.8", "start_client:announces-its-own-scheme", own and not glob, ins[0].site, "padding-md5 = md5 of self.padding" if own and not glob else
+                   "the announced padding-md5 is `%s`, not the md5 of the scheme this session shapes with: a client configured with a custom scheme announces the process default, the server sees a match and never "
+                   "pushes its scheme, so nothing is ever adopted" % fmt(v)[:80])
+    wp = co(ctx, "R19.8", S + "write_with_padding")
+    wf = co(ctx, "R19.8", S + "write_frame")
+    if wp is not None and wf is not None:
+        from engine.anl.locks import Held, lock_fields
+        names = {cls: n[0] for cls, n in lock_fields(ctx.P).items()}
+        rd_wp = [c for c in calls_norm(wp, "RwLock::read") if str(var_name(ctx.origins(wp).of_operand(c.args[0]))).startswith("self.padding")]
+        rd_wf = [c for c in calls_norm(wf, "RwLock::read") if str(var_name(ctx.origins(wf).of_operand(c.args[0]))).startswith("self.padding")]
+        early = []
+        must = Held(wf, must=True)
+        for c in rd_wf:
+            held = {names.get(cls, cls) for (l, m, cls) in must.held_at_call(c.bb)}
+            if "Session.buffer" not in held:
+                early.append(c)
+        ok = bool(rd_wp or rd_wf) and not early
+        ctx.ob("R19.8", "write-path:scheme-read-inside-the-numbering-section", ok, (early[0] if early else (rd_wp or rd_wf)[0]).site if (early or rd_wp or rd_wf) else "",
+               "the session's scheme is read after the buffer lock is taken (in write_with_padding, which every caller enters with Session.buffer held)" if ok else
+               "the session's scheme is read before Session.buffer is taken: writes queued behind a stalled one keep the scheme they read while waiting, so a push that arrives in that window does not apply to "
+               "packets that are numbered after it")
 
 
 def r7_scheme_identity(ctx):
@@ -252,6 +306,7 @@ def run(ctx):
     effects.check_property(ctx, "C19")    # R19.E: no operation on shared protocol state outside the reviewed table
     from . import C05
     r7_scheme_identity(ctx)
+    r8_announced_md5_is_the_sessions_own(ctx)
     from . import C10
     C10.r8_version_independent_of_padding(ctx)   # and conversely: the push does not depend on the protocol version the client announced
     C05.r3_role(ctx)      # what gates shaping besides the packet index is a per-role constant (no sticky per-session latch)
